@@ -219,8 +219,14 @@ pub fn set_label(l: Option<RunLabel>) {
     LABEL.with(|c| *c.borrow_mut() = l);
 }
 
-fn enter_run() {
-    let Some(l) = LABEL.with(|c| c.borrow().clone()) else { return };
+fn enter_run(gen: Gen) {
+    // runs the batches did not label (probe, samples, minimiser, replays) are watched as well
+    let l = LABEL.with(|c| c.borrow().clone()).unwrap_or(RunLabel {
+        gen,
+        batch: "internal",
+        seed: 0,
+        run: 0,
+    });
     let mut a = active().lock().unwrap_or_else(|e| e.into_inner());
     let mut slot = SLOT.with(|s| s.get());
     if slot == usize::MAX {
@@ -292,9 +298,10 @@ fn execute_once(
     fresh.hard = hard;
     if under_shuttle {
         fresh.stats.shuttle_runs = 1;
+        fresh.under_shuttle = true;
     }
     world::install(fresh);
-    enter_run();
+    enter_run(gen);
     let r = if under_shuttle {
         catch_unwind(AssertUnwindSafe(|| {
             let runner = shuttle::Runner::new(SimSched { started: false }, shuttle_config());
@@ -371,7 +378,7 @@ fn execute_once(
         panic,
         exit_code,
         hard_fired: w.hard_fired,
-        stalled: w.stalled,
+        stalled: w.stalled || w.missing_program,
         under_shuttle,
         sched_digest: w.sched_digest.0,
         diverged: w.diverged,
